@@ -167,7 +167,7 @@ def gen(seed, run, tier='quick'):
         n = rng.randrange(1, len(others) + 1)
         specs = []
         for j in rng.sample(others, n):
-            um = rng.choice([1, 1, 1, 10, 100])
+            um = rng.choice([1, 1, 1, 10, 100, 1000])
             umt = rng.choice(['int', 'int', 'dec', 'str'])
             how = 'sym' if rng.random() < sym_cur_p else 'obj'
             specs.append([[j, how], amount(um), {'t': umt, 'v': um}])
@@ -421,6 +421,18 @@ def execute(h):
                             mk_amount(amt))
 
     def expected_rate(ci, a, b, d, count=True):
+        try:
+            return _expected_rate(ci, a, b, d, count)
+        except Stop:
+            raise
+        except Exception as e:      # noqa
+            # the library's own rate arithmetic (trusted, C09) failed: this
+            # lookup cannot be judged
+            probes['expected_value_unavailable'] = probes.get(
+                'expected_value_unavailable', 0) + 1
+            return ('unjudged', type(e).__name__)
+
+    def _expected_rate(ci, a, b, d, count=True):
         """-> ('rate', unit idx, term idx, 'n/d') | ('none',) | ('one', a)"""
         def bump(dct, k):       # noqa: shadow: probes count lookups only
             if count:
@@ -480,6 +492,8 @@ def execute(h):
                             conv.get_rate(curs[a], curs[b], d)))
                         e = expected_rate(ci, a, b, d, count=False)
                         vec.append(o)
+                        if e[0] == 'unjudged':
+                            continue
                         if o != e:
                             violate('sweep', 'rate', step, conv=ci,
                                     pair=[a, b], date=d.isoformat(),
@@ -515,6 +529,8 @@ def execute(h):
         exps = []
         for dd in dates:
             e = expected_rate(ci, a, b, dd)
+            if e[0] == 'unjudged':
+                return o
             if op[0] == 'call':
                 if e[0] == 'one':
                     e = ('amount', _num(money.amount))
